@@ -1,7 +1,7 @@
 (* C11 — converting a local function to an import redirects all its uses.  Statements only. *)
 From Coq Require Import List Arith NArith Bool.
 Import ListNotations.
-From Orca Require Import Util Reindex Reorg ReidxProofs CheckReidx SelfReidx.
+From Orca Require Import Util Reindex Reorg ReidxProofs ReidxBind ReidxInv CheckReidx SelfReidx.
 Local Open Scope N_scope.
 
 (* the index-space theorems are shared by the three re-indexed spaces (functions, globals, memories) *)
@@ -28,3 +28,19 @@ Example C11_nonvacuous :
              [mkSite KCode SF 1 (OFunc 3); mkSite KCode SF 0 (OFunc 3); mkSite KCode SF 2 (OFunc 3)] in
   agree c = true /\ dom_of (verdict11 c) = true /\ holds_of (verdict11 c) = true.
 Proof. vm_compute. repeat split; reflexivity. Qed.
+
+(* ---- over every reachable state (Proofs/ReidxInv.v): after a successful convert_local_fn_to_import of the
+   local function id with an import of fingerprint fp, outside D02 / D06 / D26 the id (which every former use
+   carries) is mapped to the index at which the emitted module has exactly that import *)
+Theorem C11_converted_function_id_designates_the_import :
+  forall m id fp m' r it, wf m -> Reindex.step m (LocalToImport id fp) = Ok (m', r) ->
+  nthN (s_items (m_f m)) id = Some it -> is_local it = true ->
+  okD02 SF m' = true -> okD06 SF m' = true -> okD26 SF m' = true ->
+  forall l mp, index_space (m_f m') = Ok (l, mp) ->
+  exists q, lookup mp id = Some q /\ nthN (space_of_model m' l SF) q = Some fp.
+Proof. exact l2i_binding. Qed.
+Print Assumptions C11_converted_function_id_designates_the_import.
+Theorem C11_wf_is_an_invariant_of_every_edit :
+  forall m o m' r, wf m -> Reindex.step m o = Ok (m', r) -> wf m'.
+Proof. exact step_wf. Qed.
+Print Assumptions C11_wf_is_an_invariant_of_every_edit.
